@@ -3,6 +3,7 @@ C06 — a confirmation updates exactly one learned count, and learning only re-r
 
 Model: Chokan.Model.Server (`confirm`, `updateWord`, `expire`) and Chokan.Model.Kkc (scores).
 -/
+import Std.Data.String.ToNat
 import Chokan.Model.Server
 import Chokan.Lemmas.Kkc
 import Chokan.Gen.Server
@@ -124,5 +125,55 @@ theorem C06_same_untruncated_set (t : Tables) (input : Str) (d : Dict) (ctx : Ct
     simpa [getCandidates, hg0] using hget'
   exact ⟨texts_transfer t ctx f f' g0 n fuel R R' hR hopt' hlt' x,
          texts_transfer t ctx f' f g0 n fuel R' R hR' hopt hlt x⟩
+
+
+/-! ## candidate ids are strings -/
+
+theorem toString_nat_inj {i j : Nat} (h : toString i = toString j) : i = j := by
+  rw [Nat.toString_eq_repr, Nat.toString_eq_repr] at h
+  exact Nat.repr_injective h
+
+/-- **Only an id that was issued names a candidate.**  A session with `n` candidates answers to exactly the `n`
+strings `"0"`, …, `toString (n-1)` it was issued with, each naming its own position: no other string (`"+0"`,
+`"00"`, `" 1"`, `"1.0"`, an index past the end, …) resolves to any candidate. -/
+theorem C06_candidate_id_exact (n i : Nat) (id : String) :
+    Chokan.Server.candIndex n id = some i ↔ i < n ∧ id = toString i := by
+  unfold Chokan.Server.candIndex
+  constructor
+  · intro h
+    have hp := List.find?_some h
+    have hm := List.mem_of_find?_eq_some h
+    exact ⟨by simpa using hm, by simpa using (beq_iff_eq.1 hp).symm⟩
+  · rintro ⟨hi, rfl⟩
+    cases hf : (List.range n).find? (fun j => toString j == toString i) with
+    | none =>
+      rw [List.find?_eq_none] at hf
+      exact absurd (by simp) (hf i (by simpa using hi))
+    | some j =>
+      have hp := List.find?_some hf
+      rw [toString_nat_inj (beq_iff_eq.1 hp)]
+
+/-- … so a confirmation whose candidate id is not one of the issued strings changes no learned count and no
+user word (it only consumes the session, as an unknown candidate does). -/
+theorem C06_unissued_id_changes_nothing (c : Chokan.Server.Cfg) (s : Chokan.Server.State) (sid : Nat) (id : String) (now : Int)
+    (hbad : ∀ sess, s.sessions.find? (·.sid == sid) = some sess → ∀ i, i < sess.cands.length → id ≠ toString i) :
+    (Chokan.Server.confirmId c s sid id now).freq = s.freq ∧
+    (Chokan.Server.confirmId c s sid id now).userDict = s.userDict ∧
+    (Chokan.Server.confirmId c s sid id now).pending = s.pending := by
+  unfold Chokan.Server.confirmId
+  cases hs : s.sessions.find? (·.sid == sid) with
+  | none => simp [Chokan.Server.confirm, Chokan.Server.popSession, hs]
+  | some sess =>
+    have hnone : Chokan.Server.candIndex sess.cands.length id = none := by
+      cases hc : Chokan.Server.candIndex sess.cands.length id with
+      | none => rfl
+      | some i =>
+        obtain ⟨hi, hid⟩ := (C06_candidate_id_exact _ _ _).1 hc
+        exact absurd hid (hbad sess hs i hi)
+    simp [Chokan.Server.confirm, Chokan.Server.popSession, hs, hnone]
+
+example : Chokan.Server.candIndex 3 "2" = some 2 ∧ Chokan.Server.candIndex 3 "+0" = none ∧
+    Chokan.Server.candIndex 3 "00" = none ∧ Chokan.Server.candIndex 3 "3" = none ∧ Chokan.Server.candIndex 3 "" = none := by
+  decide
 
 end Chokan.Props.C06
